@@ -51,7 +51,7 @@ def setup():
     pym = seams.import_pymoto()
 
 
-def _client(rng):
+def _client(rng, tier="quick"):
     cfg = templates.gen_cfg(rng)
     if cfg["solver"] == "cg_gmg" and cfg["t"] not in ("T1", "T5"):
         cfg["solver"] = "auto"
@@ -60,7 +60,7 @@ def _client(rng):
     if cfg["nload"] > 1 and cfg["solver"].startswith("cg"):
         cfg["lda"] = True     # an unused / unseeded load case gives an all-zero adjoint column: only LDAWrapper shields CG from it (documented)
     ops = []
-    nops = int(rng.integers(3, 26))
+    nops = int(rng.integers(3, 50 if tier == "thorough" else 26))
     messy = float(rng.choice([0.1, 0.3, 0.5]))
     p_fault = 0.25 if cfg["solver"] in ("dense_auto",) else 0.0
     # protocol automaton with messy deviations.  The regular cycle is the one of an optimisation loop with several responses
@@ -91,7 +91,7 @@ def _client(rng):
 
 def gen(rng, idx, tier):
     ncl = int(rng.choice([1, 1, 2, 3]))
-    clients = [_client(rng) for _ in range(ncl)]
+    clients = [_client(rng, tier) for _ in range(ncl)]
     total = sum(len(c["ops"]) for c in clients)
     return dict(clients=clients, schedule=[int(s) for s in rng.integers(0, ncl, size=total)],
                 clock=[float(x) for x in rng.choice([1e-3, -5.0, 100.0, 0.0], size=3)])
